@@ -277,6 +277,9 @@ def run(ctx):
         "coordinates are compared to 1e-9 relative (the library computes cos(k*pi/2) in floating point)",
         "aliasing pattern P1 is excluded from the exhaustive model by AliasGuard and checked by the witness run",
     ]
+    # the unbounded integer core (spec/C13Core.tla): Apalache discharges the inductive invariant
+    from .. import apalache
+    apalache.run_stage(ctx)
     # the two-form contract at the edge of floating point (spec/C13X.tla): degenerate results, far points, extreme factors
     from .. import c13x
     c13x.run_stage(ctx, df, 400 if ctx.tier == "quick" else 6000)
